@@ -1,6 +1,6 @@
 (* C11 - Values compare in SQLite's order.  Property theorems only; proofs
    are in Proofs/. *)
-From SQ Require Import Model.Base Model.Record Model.Float Model.Cmp Spec.Order Proofs.CmpP Proofs.IntRealP.
+From SQ Require Import Model.Base Model.Record Model.Float Model.Cmp Spec.Order Proofs.CmpP Proofs.IntRealP Gen.CmpFloat Proofs.CmpFloatP.
 
 (* SQLite's order (Spec/Order.v: NULL < numbers by exact value < text by
    collation < blobs bytewise) is a total preorder on storable values *)
@@ -84,3 +84,14 @@ Example C11_nocase_nul :
   collate_cmp CNocase [x61; x00; x62] [x41; x00; x63] = Eq /\ collate_cmp CNocase [x61; x00; x62] [x61; x00; x62; x63] = Lt /\
   collate_cmp CNocase [x61; x00] [x61; x62] = Lt /\ collate_cmp CNocase [x61; x5f] [x61; x41] = Lt.
 Proof. vm_compute. repeat split; reflexivity. Qed.
+
+(* cmpIntFloat and cmpFloat64 ARE the model's: Gen/CmpFloat.v holds their statements as translated from db/cmp.go on every build
+   (the NaN test r != r, the two range guards against the float literals given by their bit patterns, int64(r), the two integer
+   comparisons, the tie-break through float64(i)); for every integer and every bit pattern they compute what Model/Cmp.v computes,
+   which C11_int_real proves to be the exact comparison *)
+Theorem C11_source_int_real : forall i r, go_cmpIntFloat i r = cmp_int_float i r.
+Proof. exact go_cmpIntFloat_spec. Qed.
+Print Assumptions C11_source_int_real.
+Theorem C11_source_float : forall a b, go_cmpFloat64 a b = cmp_float64 a b.
+Proof. exact go_cmpFloat64_spec. Qed.
+Print Assumptions C11_source_float.
